@@ -45,6 +45,10 @@ func lexSets() []lexSet {
 		mk("overlap", "<=>", "=", "===", "=>", "->", "?:", "::", ":=", "..", ".^.", "?.", "|>", "~", "@", "<-", "--"),
 		mk("words", "in", "contains", "xor", "nand", "是", "and_then", "e", "x", "true_ish"),
 		bare("bare", "<", "<=", "<=>", "=", "==", "===", "=>", ":", "::", ".", "..", "?", "??", "-", "->", "e", "x", "a"),
+		// operator sets whose spellings concatenate to the same text
+		bare("split1", "<", "<=>"), bare("split2", "<<", "=>"), bare("split3", "<<=", ">"), bare("split4", "<", "<", "=>"),
+		mk("star1", "**", ">"), mk("star2", "*", "*>"), mk("star3", "**>"),
+		mk("caret", ".ˆ", "?ˆ", "ˆ", ".ˆ."),
 	}
 }
 
@@ -185,7 +189,31 @@ func realTokStr(ts []*token.Token) string {
 
 var lexAlphabet = []string{"a", "e", "x", "0", "1", ".", "<", "=", "-", "?", ":", "\"", "'", " ", "\n", "晓"}
 
-var lexPieces = []string{
+var lexPieces = append(longNumberPieces(), lexPiecesBase...)
+
+// long numeric literals with the fraction / exponent at every offset from 20 to 70
+func longNumberPieces() []string {
+	var out []string
+	for n := 20; n <= 70; n += 1 {
+		d := "1" + strings.Repeat("0", n-1)
+		switch n % 5 {
+		case 0:
+			out = append(out, d+".5")
+		case 1:
+			out = append(out, d+"e-3")
+		case 2:
+			out = append(out, d+".25e+7")
+		case 3:
+			out = append(out, d+"E5")
+		default:
+			out = append(out, d[:n/2]+"."+d[n/2:])
+		}
+	}
+	out = append(out, "\""+strings.Repeat("s", 40)+"\"", "`"+strings.Repeat("r", 35)+"`", "'"+strings.Repeat("2", 33)+"'", strings.Repeat("x", 31)+"晓"+strings.Repeat("y", 5))
+	return out
+}
+
+var lexPiecesBase = []string{
 	"true", "false", "and", "or", "not", "in", "xor", "a", "b1", "_x", "晓", "é", "名1", "e", "x", "E",
 	"0", "1", "12", "01", "1.5", "1.5.5", "1.e5", "1e5", "1e+5", "1E-5", "1e", "1e5e6", "0x", "0x1F", "0x0F", "0xg", "0b101", "0b2", "0b", "0o17", "0o8", "1.", ".5",
 	"\"s\"", "\"a\\\"b\"", "\"\\u00e9\"", "\"\\q\"", "\"open", "\"multi\nline\"", "`raw`", "`raw\nline`", "`open", "'2020-01-01'", "'t\nwo'", "'open", "'a\"b'", "'a`b'",
